@@ -1,12 +1,16 @@
 import TrucModel.Proofs.Corollaries
 import TrucModel.Proofs.GenProps
+import TrucModel.Proofs.GenCheckProps
+import TrucModel.Proofs.EndToEnd
 import TrucModel.Props.Examples
 /-
   C13 — Any definition the builder accepts can be displayed, generated and compiled.
   This file: nothing panics (strategies, Display, capacity, alignment, `generate()`); the compile half
   is modelled by the three compiler rules of `Model/Static.lean` (`C11_accepts_when_right`: a generated
-  module whose recorded type information is right is accepted) and otherwise carried by channel X, which
-  compiles every sampled module with all four fragment selections in three builds.
+  module whose recorded type information is right is accepted) and by two more rules over the function
+  bodies, `Model/GenCheck.lean`: a binding is used only while in scope and not moved out, `data` is
+  stored into only when declared `mut` (`C13_bodies_pass_move_and_mut_rules`). The rest of rustc is
+  carried by channel X, which compiles every sampled module with all four fragment selections in three builds.
 -/
 namespace Truc
 
@@ -45,6 +49,52 @@ theorem C13_generate_no_panic (reqs : List Req) (hv : ∀ r ∈ reqs, r.valid) (
   cases hms : d.maxSize with
   | none => rw [hms] at hm; simp at hm
   | some ms => rfl
+
+/-- the generated function bodies pass the move / mutability rules (E0382, E0425, E0596), for every definition built
+    from valid requests in which no field is called like one of the template's own bindings -/
+theorem C13_bodies_pass_move_and_mut_rules (reqs : List Req) (hv : ∀ r ∈ reqs, r.valid) (d : Definition)
+    (hb : (run reqs).build = some d)
+    (hn : ∀ i ∈ d.defs, i.name ≠ "self" ∧ i.name ≠ "plus" ∧ i.name ≠ "from" ∧ i.name ≠ "data") :
+    ∀ s ∈ Gen.specs d, Gen.variantChecks s = true := by
+  intro s hs
+  have hd : d = ⟨(run reqs).defs, (run reqs).variants⟩ := by
+    unfold BState.build at hb
+    split at hb
+    · simp only [Option.some.injEq] at hb; exact hb.symm
+    · simp at hb
+  obtain ⟨_, hN⟩ := reachable_inv2 reqs hv
+  obtain ⟨v, hvm, hdata, hplus, hminus⟩ := spec_of_mem d s hs
+  have hname : ∀ id, (Gen.mkD d.defs id).name ≠ "self" ∧ (Gen.mkD d.defs id).name ≠ "plus" ∧
+      (Gen.mkD d.defs id).name ≠ "from" ∧ (Gen.mkD d.defs id).name ≠ "data" := by
+    intro id
+    have hmk : (Gen.mkD d.defs id).name = (info d.defs id).name := rfl
+    rw [hmk]
+    unfold info
+    cases hg : d.defs[id]? with
+    | none => simp only [Option.getD_none]; decide
+    | some i => simp only [Option.getD_some]; exact hn i (List.mem_of_getElem? hg)
+  have hnd : (s.data.map (·.name)).Nodup := by
+    rw [hdata, List.map_map]
+    have hv0 : (v.map (nameOf d.defs)).Nodup := by
+      have := hN.variants v (by rw [hd] at hvm; exact hvm)
+      rw [hd]; exact this
+    have : ((Gen.sortIds v).map (nameOf d.defs)).Nodup := ((Gen.sortIds_perm v).map _).nodup_iff.2 hv0
+    exact this
+  apply Gen.variantChecks_ok s hnd
+  · intro _; exact List.Nodup.sublist (hplus.map _) hnd
+  · intro x hx
+    rw [hdata, List.mem_map] at hx
+    obtain ⟨id, _, rfl⟩ := hx
+    exact (hname id).1
+  · intro _ x hx
+    obtain ⟨id, rfl⟩ := hminus x hx
+    exact ⟨(hname id).2.1, (hname id).2.2.1, (hname id).2.2.2⟩
+
+/-- the rules do reject what rustc rejects: a `new_uninit` whose helper binding swallowed `from` -/
+example : Gen.checkBody (Gen.params ["from"])
+    [.safeFrom "_from" "S" none "from", .letBuf false, .write ⟨0, "a", "P4", 4, 4, 0, false⟩ "from", .retSelfData] = none ∧
+    (match (run Ex.h1).build with | some d => (Gen.specs d).map Gen.variantChecks | none => []) = [true, true, true] := by
+  decide +kernel
 
 /-- non-vacuity, including an add-then-remove-before-close -/
 example : (run (Ex.h1 ++ [.add (Ex.I "x" 8 8), .remove 6, .close .simple])).build.isSome = true ∧
